@@ -5,6 +5,7 @@ All statements hold for every hash function `H`, every depth guard and permutati
 -/
 import SophiaProofs.Lemmas.Sound
 import SophiaProofs.Lemmas.Outcomes
+import SophiaProofs.Lemmas.ValidTerms
 import SophiaModel.Model.Sha2
 
 namespace SophiaProofs.C05
@@ -714,5 +715,51 @@ theorem soundFull_refuted : ¬ SoundFull Sha2.sha256Hex := by
         swapXY_inj (List.Perm.refl _) h1 h2
       rw [this] at hd
       simp at hd
+
+end SophiaProofs.C05
+
+namespace SophiaProofs.C05
+open SophiaModel SophiaModel.Rdfc10 SophiaProofs.Rdfc10L SophiaProofs.CnqL
+
+/-! ### the well-formedness hypothesis is what the toolkit's validators guarantee -/
+
+/-- **`TermOK` is discharged for validated terms**: every term whose IRI / blank node label / language
+tag / datatype is accepted by the regexes regenerated from /repo (`IriRef::new`, `BnodeId::new`,
+`LanguageTag::new`) satisfies the hypothesis of `complete`, `sorted_is_line_order`,
+`impl_eq_spec_partial` (three regex-disjointness obligations decided by the verified procedure
+`decideDisj`, evaluated natively as in C09) -/
+theorem validated_terms_wellformed {t : Term} (h : Validated t) : TermOK t := termOK_of_validated h
+
+/-- quads of a dataset built through the validating constructors, graph names IRIs or blank nodes -/
+structure ValidQuad (q : Quad) : Prop where
+  s : Validated q.s
+  p : Validated q.p
+  o : Validated q.o
+  g : match q.g with
+    | none => True
+    | some g => Validated g ∧ (isBnode g = true ∨ ∃ s, g = .iri s)
+
+theorem quadOK_of_valid {q : Quad} (h : ValidQuad q) : QuadOK q where
+  s := termOK_of_validated h.s
+  p := termOK_of_validated h.p
+  o := termOK_of_validated h.o
+  g := by
+    have hg := h.g
+    unfold GraphOK
+    cases hq : q.g with
+    | none => trivial
+    | some g => rw [hq] at hg; exact ⟨termOK_of_validated hg.1, hg.2⟩
+
+/-- **completeness for datasets of validated terms** (no hypothesis beyond what the toolkit's
+constructors enforce): equal canonical bytes ⇒ isomorphic -/
+theorem complete_validated {H : Str → Str} {td td' : Nat → Nat → Bool} {pl pl' : Nat} {D₁ D₂ : List Quad} {s : Str}
+    (v₁ : ∀ q ∈ D₁, ValidQuad q) (v₂ : ∀ q ∈ D₂, ValidQuad q)
+    (h₁ : normalizeWith H td pl D₁ = .ok s) (h₂ : normalizeWith H td' pl' D₂ = .ok s) : Iso D₁ D₂ :=
+  complete (fun q hq => quadOK_of_valid (v₁ q hq)) (fun q hq => quadOK_of_valid (v₂ q hq)) h₁ h₂
+
+/-- non-vacuity: a validated quad with a blank graph name and a language-tagged literal -/
+example : ValidQuad ⟨.bnode "b0".toList, .iri "http://ex.org/p".toList, .lang "chat".toList "fr-BE".toList, some (.bnode "g".toList)⟩ :=
+  ⟨by show Re.matchB _ _ = true; native_decide, by show Re.matchB _ _ = true; native_decide,
+   by show Re.matchB _ _ = true; native_decide, ⟨by show Re.matchB _ _ = true; native_decide, Or.inl rfl⟩⟩
 
 end SophiaProofs.C05
